@@ -496,3 +496,42 @@ def pinned_traces(tier):
     from .pinned import c01 as p
     out.extend(p.traces())
     return out
+
+
+def shrink_candidates(trace):
+    """Smaller variants of a failing case: drop one part (with the relationships that target it), drop one relationship,
+    drop declarations, plain cycle."""
+    import copy
+    out = []
+    cyc = trace["cycle"]
+    plain = dict(cyc, form="stream", pos=0, sink1="seekable", sink2="seekable", form2="stream", jump1=0, jump2=0)
+    if plain != cyc:
+        out.append(dict(trace, cycle=plain))
+    if "pkg" not in trace:
+        return out
+    rec = trace["pkg"]
+    parts = rec["parts"]
+    for i in range(len(parts)):
+        r2 = copy.deepcopy(rec)
+        gone = r2["parts"].pop(i)["name"]
+        def keep(src, x):
+            if x["mode"] == "External":
+                return True
+            return refpkg.resolve(src, x["target"]) != gone
+        r2["root_rels"] = [x for x in r2["root_rels"] if keep("/", x)]
+        for p_ in r2["parts"]:
+            p_["rels"] = [x for x in p_["rels"] if keep(p_["name"], x)]
+        r2["overrides"] = [o for o in r2["overrides"] if o[0].lower() != gone.lower()]
+        out.append(dict(trace, pkg=r2))
+    for i in range(len(rec["root_rels"])):
+        r2 = copy.deepcopy(rec)
+        r2["root_rels"].pop(i)
+        out.append(dict(trace, pkg=r2))
+    for pi, p_ in enumerate(parts):
+        for i in range(len(p_["rels"])):
+            r2 = copy.deepcopy(rec)
+            r2["parts"][pi]["rels"].pop(i)
+            out.append(dict(trace, pkg=r2))
+    if rec.get("stored") or rec.get("order_seed"):
+        out.append(dict(trace, pkg=dict(rec, stored=False, order_seed=0)))
+    return out[:80]
